@@ -437,7 +437,7 @@ fn wait_token(t: Option<std::thread::ThreadId>, token: usize, before: usize) {
 
 pub fn run(rc: &mut RunCtx) {
     let seed = rc.seed;
-    let n = rc.n(400, 10000);
+    let n = rc.n(1200, 15000);
     for i in 0..n {
         let id = format!("listen:{}", i);
         if !rc.mine(&id) {
